@@ -165,6 +165,19 @@ def prog_job(args):
         case["freq_sync1"] = mk_fsync(1) if any(rsts) else None
         case["fprog"] = fprog
         out.append(case)
+    # the Lean driver is asked here, in the worker (the main process only judges): one batch per job
+    live = [c for c in out if "error" not in c]
+    if live:
+        reqs = []
+        for c in live:
+            reqs += [c["req_comb"], c["req_sync"]] + ([c["req_sync1"]] if c.get("req_sync1") else [])
+            reqs += [c["freq_comb"], c["freq_sync"]] + ([c["freq_sync1"]] if c.get("freq_sync1") else [])
+        resps = common.Driver("amodel").ask(reqs)
+        k = 0
+        for c in live:
+            n = 3 if c.get("req_sync1") else 2
+            c["resps"], c["fresps"] = resps[k:k + n], resps[k + n:k + 2 * n]
+            k += 2 * n
     return {"cases": out, "hist": hist}
 
 
@@ -314,7 +327,7 @@ def judge_fsm(chk, case, resps):
 def judge(chk, case, resps):
     base = {"sigs": case["sigs"], "prog": case.get("prog"), "job_seed": case["seed"]}
     if "fsm_init" in case:
-        chk.violation(f"FSM {case['fsm_init'][0]} starts in state encoding {case['fsm_init'][1]}, the first defined (or specified) state has {case['fsm_init'][2]}",
+        chk.violation(f"FSM {case['fsm_init'][0]} starts in state {case['fsm_init'][1]} (fsm.decoding of the register's initial value), the first defined (or specified) state is {case['fsm_init'][2]}",
                       dict(base, kind="fsm-init", classes=[]))
         return
     if "error" in case:
@@ -385,27 +398,30 @@ def run(chk):
         for job in ex.map(prog_job, args, chunksize=2):
             for k, v in job["hist"].items():
                 chk.hist("fsm_shapes" if k.startswith("fsm_") else "constructs", k, v)
-            reqs = []
-            for c in job["cases"]:
-                if "error" not in c:
-                    reqs += [c["req_comb"], c["req_sync"]] + ([c["req_sync1"]] if c.get("req_sync1") else [])
-                    reqs += [c["freq_comb"], c["freq_sync"]] + ([c["freq_sync1"]] if c.get("freq_sync1") else [])
-            resps = chk.driver.ask(reqs)
-            k = 0
+            chk.driver.n += sum(len(c.get("resps", [])) + len(c.get("fresps", [])) for c in job["cases"])
             for c in job["cases"]:
                 if "error" in c:
                     judge(chk, c, None)
                 else:
-                    n = 3 if c.get("req_sync1") else 2
                     seen = lambda: len(chk.violations) + len(chk.unshown) + sum(chk.known_seen.values())
                     before = seen()
-                    judge(chk, c, resps[k:k + n]); k += n
+                    judge(chk, c, c["resps"])
                     if seen() == before:
-                        judge_fsm(chk, c, resps[k:k + n])
-                    k += n
+                        judge_fsm(chk, c, c["fresps"])
     chk.cov["rule"] = ("random Module-DSL programs (nesting <= 4: If/Elif/Else chains up to 4 tests incl. multi-bit, signed and constant "
                        "conditions; Switch with int, negative/unrepresentable int, multi-pattern and whitespace string patterns, Default, "
                        "cases after Default; comb and sync assignments mixed in one tree; targets from the C05 target grammar) simulated "
                        "for several input vectors and clock edges; every driven signal compared after every settle and every edge with the "
                        "Lean Model (lowered statements as amaranth built them) and the Lean Spec (program as written). "
+                       "FSMs (1-4 states, nested up to the program depth, m.next to states defined later, fsm.ongoing() calls before "
+                       "the State block, explicit init=, state names shared by nested FSMs; the domain reset on a fifth of the edges; "
+                       "now and then a state register forced to an arbitrary code, unused ones included) go to the driver twice: "
+                       "desugared by the harness (Prog: Switch on the register) and *as written* (FProg: states by name) — there the "
+                       "Lean Model lowers the FSM itself and its statements are compared structurally (up to empty blocks) with the "
+                       "ones amaranth built, the Lean Spec steps the FSM by state name and is compared with fsm.decoding of the "
+                       "simulated register and with every ongoing() signal. "
                        "distinct = distinct program text; non-trivial = some driven signal leaves its initial/previous value")
+    chk.assumptions += ["FSM stream: the state names sent with every state are fsm.decoding (real FSM object) of the simulated register "
+                        "value; the driver reports whether the model's decode agrees (agree=)",
+                        "FSM stream: all FSMs are in the `sync` domain of the generated module (the model's lowering is per domain and "
+                        "carries the FSM's domain, but no other synchronous domain is generated here)"]
